@@ -1,0 +1,14 @@
+//go:build verif
+
+package dns_naming
+
+import "github.com/irai/packet"
+
+// VerifNew is New without binding the multicast sockets (build tag verif only).
+func VerifNew(session *packet.Session) *DNSHandler {
+	h := new(DNSHandler)
+	h.session = session
+	h.DNSTable = make(map[string]packet.DNSEntry, 256)
+	h.mdnsCache = make(map[string]cache)
+	return h
+}
